@@ -15,4 +15,22 @@ def negate (st : Nat) : Nat := if st = 0 then 1 else 0
 /-- `wait pid`: the exit status of that child if it is a child that has not been waited for, else 127 -/
 def wait (known : Option Nat) : Nat := known.getD 127
 
+/-- `wait o1 … on` (n ≥ 1): every operand that names a child not yet waited for is waited for (and is
+    thereby no longer waitable: `active` shrinks); the exit status is that of the LAST operand — the
+    child's status, or 127 if the operand names no such child (unknown pid, unknown job ID, a child
+    waited for already, also earlier in the same list).  Operands: `some id` = a process ID, `none` = a
+    job ID naming no job.  Returns the status and the children still waitable. -/
+def waitOps (truth : Nat → Nat) : List Nat → List (Option Nat) → Nat → Nat × List Nat
+  | active, [], last => (last, active)
+  | active, none :: t, _ => waitOps truth active t 127
+  | active, some i :: t, _ =>
+    if i ∈ active then waitOps truth (active.erase i) t (truth i) else waitOps truth active t 127
+
+/-- the status each operand of `wait o1 … on` yields, in order (the exit status of `wait` is the last) -/
+def waitEach (truth : Nat → Nat) : List Nat → List (Option Nat) → List Nat
+  | _, [] => []
+  | active, none :: t => 127 :: waitEach truth active t
+  | active, some i :: t =>
+    if i ∈ active then truth i :: waitEach truth (active.erase i) t else 127 :: waitEach truth active t
+
 end YashModel.Proc.Spec
